@@ -342,9 +342,28 @@ CompSpace ==
 (* failure => the report is 5yz / 5.x.x; class 4 is legitimate only when the  *)
 (* tries were exhausted on a failure that was still temporary.                *)
 
+\* what an attempt can fail with: every combination of {temporary, permanent, unclassified}
+\* with {annotated with a specific enhanced code, annotated with a generic one (X.0.0 is
+\* derived), not annotated at all, marker contradicting the annotation}
 HistErrs == {<<[k |-> "smtp", c |-> "t", m |-> "a"]>>, <<[k |-> "smtp", c |-> "p", m |-> "a"]>>,
-             <<[k |-> "plain"]>>, <<[k |-> "temp", b |-> TRUE], [k |-> "smtp", c |-> "p", m |-> "a"]>>}
-HistSpace == UNION {{[mt |-> n, seq |-> q] : q \in [1..n -> HistErrs]} : n \in {2, 3}}
+             <<[k |-> "plain"]>>, <<[k |-> "temp", b |-> TRUE], [k |-> "smtp", c |-> "p", m |-> "a"]>>,
+             <<[k |-> "smtp", c |-> "tu", m |-> "a"]>>, <<[k |-> "smtp", c |-> "pu", m |-> "a"]>>,
+             <<[k |-> "temp", b |-> FALSE], [k |-> "plain"]>>, <<[k |-> "net", b |-> FALSE]>>,
+             <<[k |-> "net", b |-> TRUE]>>}
+\* pt: where the target fails in every attempt of the history - per recipient ("rcpt":
+\* AddRcpt; "status": the per-recipient status of a non-atomic body, the LMTP way) or for
+\* the whole message ("start", "body", "commit").  rs: the queue is shut down and started
+\* again on the same spool between the attempts (the recorded status and the tries counter
+\* travel through the .meta file).  The documented rule and the predicates do not depend
+\* on pt and rs (the same report is demanded whichever way the failure arrives): they are
+\* data dimensions of the replay on the real queue.
+HistPoints == {"rcpt", "status", "start", "body", "commit"}
+HistSeqs(n) == [1..n -> HistErrs]
+HistSpace == {[mt |-> 3, seq |-> q, pt |-> "rcpt", rs |-> FALSE] : q \in HistSeqs(3)}
+             \cup {[mt |-> 2, seq |-> q, pt |-> p, rs |-> r] : q \in HistSeqs(2), p \in HistPoints, r \in BOOLEAN}
+             \cup {[mt |-> 3, seq |-> q, pt |-> p, rs |-> TRUE] :
+                      q \in {s \in HistSeqs(3) : s[1] \in {<<[k |-> "smtp", c |-> "t", m |-> "a"]>>, <<[k |-> "plain"]>>}},
+                      p \in {"rcpt", "status", "body"}}
 
 Permanent(t) == Marker(t) = "perm"
 Terminal(h) == IF \E i \in 1..h.mt : Permanent(h.seq[i])
